@@ -1478,6 +1478,6 @@ TRUSTED = [
     "opt-in proof accelerator pyvc.solve.abstract_nonlinear: products / quotients / powers replaced by uninterpreted functions (sound for unsat)",
 ]
 MANIFEST = {
-    "text": "Real ASTs of gyration_tensor, s2_integral, S2.__init__, S2.particle_s2, q8_tetrahedral, NematicOrder.tensor, for symbolic frame number T, particle number N, species number K, bin number ndelta (no bound). gyration_tensor (d=2,3): the matrix handed to eig is the centred second-moment tensor (1/N) sum_i (r_i - rbar)(r_i - rbar)^T, it is symmetric, Rg = sqrt(mean squared distance to the centroid) = sqrt(sum of eigenvalues), asphericity = lam3 - (lam1+lam2)/2, acylindricity = lam2 - lam1, anisotropy = (b^2 + 3c^2/4)/Rg^4, fractal dimension = log10 N / log10 Rg, 2-D list [Rg, c, fd]. s2_integral = trapezoid sum of (g ln g - g + 1) r^(d-1). S2.__init__: rho = N / prod(boxlength). S2.particle_s2 (d=2,3; with and without savegr): S2[n,i] = -(d-1) pi rho trapz((g ln g - g + 1) r^(d-1)) with g_i(r_b) = (1/norm_b) sum_{j != i, |D_ij| < r_max} Gauss_{sigma(t_i,t_j)}(r_b - |D_ij|), r_b = (b+1/2) rdelta, norm_b = 2 pi rho r_b / 4 pi rho r_b^2, r_max = (ndelta - 1/2) rdelta, D_ij the remove_pbc image; particle_gr and the saved files equal the returned arrays. q8_tetrahedral: value = 1 - (3/32) sum_{j<k} (cos psi_jk + 1/3)^2 over four selected particles that are distinct, different from i and such that no other particle is closer; value 1 when all six cosines are -1/3; kth of argpartition in range for every N >= 5. NematicOrder.tensor (2-D; raw and neighbour-averaged; trace and eigenvalue branch): stored/saved Q = (d u u^T - I)/2 (neighbour mean of it when a list is given), result = sqrt(d/(d-1) tr Q^2) resp. 2 max eig(Q); for unit directors Q is symmetric traceless and the two scalars coincide (raw tensor). Inputs are never written (except gyration_tensor, see C18). Every numpy entry point the functions reference exists in the installed numpy (CPython probe).",
+    "text": "Real ASTs of gyration_tensor, s2_integral, S2.__init__, S2.particle_s2, q8_tetrahedral, NematicOrder.tensor, for symbolic frame number T, particle number N, species number K, bin number ndelta (no bound). gyration_tensor (d=2,3): the matrix handed to eig is the centred second-moment tensor (1/N) sum_i (r_i - rbar)(r_i - rbar)^T, it is symmetric, Rg = sqrt(mean squared distance to the centroid) = sqrt(sum of eigenvalues), asphericity = lam3 - (lam1+lam2)/2, acylindricity = lam2 - lam1, anisotropy = (b^2 + 3c^2/4)/Rg^4, fractal dimension = log10 N / log10 Rg, 2-D list [Rg, c, fd]. s2_integral = trapezoid sum of (g ln g - g + 1) r^(d-1). S2.__init__: rho = N / prod(boxlength). S2.particle_s2 (d=2,3; with and without savegr): S2[n,i] = -(d-1) pi rho trapz((g ln g - g + 1) r^(d-1)) with g_i(r_b) = (1/norm_b) sum_{j != i, |D_ij| < r_max} Gauss_{sigma(t_i,t_j)}(r_b - |D_ij|), r_b = (b+1/2) rdelta, norm_b = 2 pi rho r_b / 4 pi rho r_b^2, r_max = (ndelta - 1/2) rdelta, D_ij the remove_pbc image; particle_gr and the saved files equal the returned arrays. q8_tetrahedral: value = 1 - (3/32) sum_{j<k} (cos psi_jk + 1/3)^2 over four selected particles that are distinct, different from i and such that no other particle is closer; value 1 when all six cosines are -1/3; kth of argpartition in range for every N >= 5. NematicOrder.tensor (2-D; raw and neighbour-averaged; trace and eigenvalue branch): stored/saved Q = (d u u^T - I)/2 (neighbour mean of it when a list is given), result = sqrt(d/(d-1) tr Q^2) resp. 2 max eig(Q); for unit directors Q is symmetric traceless and the two scalars coincide (raw tensor). Inputs are never written (except gyration_tensor, see C18). Every numpy entry point the functions reference exists in the installed numpy (CPython probe). Extension round: NematicOrder.tensor is run with a symbolic Nmax and the call site of spatial_average must hand on the caller's neighbour file and Nmax.",
     "note": "floats as reals (A1); assumed library contracts in pyvc/libext/C17.py (eig as Vieta relations for real symmetric input, argpartition relational, trapz = trapezoid sum, max over a symbolic axis, delete, sort <= 3, unique); remove_pbc and spatial_average enter through their callee contracts (C02, C16); one written loop summary (masked accumulation) with generated init/step obligations; sums over symbolic ranges are uninterpreted with unfold/extensionality instances; on the pinned tree two obligations fail with failing replays (np.trapz missing in numpy 2.5; argpartition kth out of range for N = 5) - fix diffs in design_notes/C17.fix-*.diff",
 }
